@@ -1,7 +1,7 @@
 (* Checkers evaluated by the correspondence run: each returns the indices of
    the cases on which model and implementation (or spec and observed output)
    differ. *)
-From V Require Import Common.Base C13.KwSpec C13.Token C13.LexSpec C13.Toks gen.KeywordsGen.
+From V Require Import Common.Base C13.KwSpec C13.Token C13.LexSpec C13.Toks C13.ParseSpec gen.KeywordsGen.
 
 Fixpoint mism_from {A} (f : A -> bool) (l : list A) (i : nat) : list nat :=
   match l with
@@ -52,3 +52,19 @@ Definition relex_ok (c : bool * expr * bytes) : bool :=
   | None => false
   end.
 Definition check_relex := mismatches relex_ok.
+
+(* tree level: the specification parser reads the real output back as the tree that was
+   printed, up to the comma re-association norm *)
+Fixpoint expr_eqb (a b : expr) : bool :=
+  match a, b with
+  | EId x, EId y | ENum x, ENum y => zlist_eqb x y
+  | ERe b1 f1, ERe b2 f2 => zlist_eqb b1 b2 && zlist_eqb f1 f2
+  | EDot t1 s1, EDot t2 s2 => expr_eqb t1 t2 && zlist_eqb s1 s2
+  | EUn o1 v1, EUn o2 v2 => op_eqb o1 o2 && expr_eqb v1 v2
+  | EBin o1 l1 r1, EBin o2 l2 r2 => op_eqb o1 o2 && expr_eqb l1 l2 && expr_eqb r1 r2
+  | _, _ => false
+  end.
+Definition reparse_ok (c : bool * expr * bytes) : bool :=
+  let '(_, e, out) := c in
+  match parse_text out with Some e' => expr_eqb e' (norm e) | None => false end.
+Definition check_reparse := mismatches reparse_ok.
